@@ -101,6 +101,31 @@ def run(ctx):
             got = [k for k, v in kw.items() if v.get("from") == key]
             ctx.check(bool(got) and all(init_landing(m, c, g)[0] == "param" for g in got), "C08.a", f"{c.name}:{key}",
                       f"additional key '{key}' restored", f"additional key '{key}' written by to_dict is not restored by the reader", r[1].where)
+    # optional keys must be guarded by presence (`"k" in a_dict`), never by the truthiness of the stored value
+    readers = {}
+    for c in classes:
+        rr = m.resolve_method(c, "_kwargs_from_dict")
+        k_ = rr[0] if rr else None
+        while rr is not None:
+            readers[rr[1].qualname] = rr[1]
+            rr = m.resolve_method(c, "_kwargs_from_dict", after=rr[0])
+    for r_ in sorted(readers.values(), key=lambda f: f.qualname):
+        src = [p_ for p_ in r_.params() if p_ not in ("cls", "self")][0]
+        bad = []
+        n = 0
+        for node in ast.walk(r_.node):
+            if isinstance(node, ast.If):
+                t = node.test
+                for x in ast.walk(t):
+                    if isinstance(x, ast.Call) and U(x.func) == f"{src}.get" or (isinstance(x, ast.Subscript) and U(x.value) == src):
+                        n += 1
+                        par_ok = isinstance(t, ast.Compare) and any(isinstance(c_, ast.Constant) and c_.value is None for c_ in t.comparators)
+                        if not par_ok:
+                            bad.append(f"`if {U(t)}` tests the stored value, so a stored False / 0 / empty value is not restored")
+                if isinstance(t, ast.Compare) and len(t.ops) == 1 and isinstance(t.ops[0], ast.In) and U(t.comparators[0]) == src:
+                    n += 1
+        ctx.check(not bad, "C08.a", f"{r_.qualname}:presence-guards", f"{n} optional-key guard(s), all presence tests", " ; ".join(bad), r_.where)
+
     # from_dict is cls(**kwargs) of that chain
     fd = HB.methods.get("from_dict")
     ctx.saw(fd)
